@@ -462,6 +462,13 @@ pub fn run(case: &str, ctx: &mut Ctx) -> String {
             }
             run_ser(e, v, &ty, ctx)
         }
+        Some("deser") if segs.len() == 3 && hd.len() == 2 => {
+            let (Some(e), Some(ty)) = (entry(hd[1]), parse_ty_str(segs[2])) else { return "bad-case".to_owned() };
+            if cd_str(&e.cd) != segs[1] {
+                return "bad-case descriptor-does-not-match-the-registered-type".to_owned();
+            }
+            run_deser(e, &ty, ctx)
+        }
         Some("tc") if segs.len() == 3 && hd.len() == 2 => {
             let (Some(e), Some(ty)) = (entry(hd[1]), parse_ty_str(segs[2])) else { return "bad-case".to_owned() };
             if cd_str(&e.cd) != segs[1] {
